@@ -43,6 +43,8 @@ type submitStore struct {
 	objects map[string]*submitObj
 	locks   map[[32]byte][]byte
 	nUpload int
+	// failIssuer > 0: the next uploads of issuer/ objects fail without being applied (storage fault)
+	failIssuer int
 	// onUpload, if set, observes every upload before it is applied (under mu).
 	onUpload func(s *submitStore, key string, data []byte, opts *ctlog.UploadOptions)
 }
@@ -59,6 +61,10 @@ func (s *submitStore) Upload(ctx context.Context, key string, data []byte, opts 
 	defer s.mu.Unlock()
 	if s.onUpload != nil {
 		s.onUpload(s, key, data, opts)
+	}
+	if s.failIssuer > 0 && strings.HasPrefix(key, "issuer/") {
+		s.failIssuer--
+		return fmt.Errorf("upload %s: injected storage fault (not applied)", key)
 	}
 	if old, ok := s.objects[key]; ok && old.opts.Immutable && !bytes.Equal(old.data, data) {
 		return fmt.Errorf("upload %s: immutable object rewritten with different bytes", key)
